@@ -312,7 +312,10 @@ def _get_type_info(cls, cls_name, cls_bases, cls_dict, attrs):
                     "inheritance. Use mixins if you need to reuse "
                     "fields from multiple classes.")
 
-            if len(base_types) > 0 and issubclass(b, ModelBase):
+            # (a class that extends another one is a base in its own right even
+            # when it adds no members)
+            if (len(base_types) > 0 or getattr(b, '__extends__', None)
+                                   is not None) and issubclass(b, ModelBase):
                 extends = cls_dict["__extends__"] = b
                 assert extends.__orig__ is None, "You can't inherit from a " \
                     "customized class. You should first get your class " \
